@@ -212,7 +212,9 @@ fn int_arg(r: &mut Rng, wide: bool) -> T {
     else if c < 76 { at(&[0x80]) }                       // -128
     else if c < 80 { at(&[0xff]) }                       // -1
     else if c < 83 { at(&[0x00]) }                       // redundant zero
-    else if c < 86 { at(&[0x00, 0x01]) }                 // redundant zero
+    else if c < 84 { at(&[0x00, 0x01]) }                 // redundant zero
+    else if c < 85 { at(&[0x00, 0x7f]) }                 // redundant zero, largest second byte
+    else if c < 86 { at(&[0x00, 0x7f, 0xff]) }
     else if c < 89 { at(&[0x00, 0x80]) }                 // 128, canonical
     else if c < 92 { at(&[1, 0, 0, 0, 0]) }              // 2^32
     else if c < 95 { at(&[1, 0, 0, 0, 0, 0, 0, 0, 0]) }  // 2^64
@@ -409,7 +411,7 @@ fn sweep(o: &mut Out, p: &Pools, thorough: bool) {
     let h = at(&p.ids[2]);
     let shapes: Vec<T> = vec![
         nil(), at(&[1]), list(vec![nil()], nil()), list(vec![int(1)], nil()), list(vec![int(1001)], nil()), list(vec![int(1)], at(&[1])),
-        list(vec![int(1), int(2)], nil()), list(vec![at(&[0x80])], nil()), list(vec![at(&[0, 1])], nil()),
+        list(vec![int(1), int(2)], nil()), list(vec![at(&[0x80])], nil()), list(vec![at(&[0, 1])], nil()), list(vec![at(&[0, 0x7f])], nil()), list(vec![at(&[0, 0x7f, 0xff, 0xff])], nil()), list(vec![at(&[0, 0x40])], nil()),
         list(vec![at(&[1, 0, 0, 0, 0])], nil()), list(vec![at(&[1, 0, 0, 0, 0, 0, 0, 0, 0])], nil()),
         list(vec![h.clone()], nil()), list(vec![h.clone(), int(1)], nil()), list(vec![h.clone(), int(1)], at(&[1])), list(vec![h.clone(), int(1), nil()], nil()),
         list(vec![h.clone(), int(1), list(vec![h.clone()], nil())], nil()), list(vec![h.clone(), int(1), list(vec![h.clone()], nil()), nil()], nil()),
@@ -438,6 +440,30 @@ fn sweep(o: &mut Out, p: &Pools, thorough: bool) {
     }
 }
 
+/// every lock/birth opcode x argument class x position, plus ASSERT_EPHEMERAL, on a coin created in
+/// the same bundle and on an ordinary one (the ephemeral-coin rules)
+fn ephemeral_sweep(o: &mut Out, p: &Pools) {
+    let parent0 = SpendG { parent: p.ids[0], ph: p.ids[1], amount: 10, conds: vec![], term: nil() };
+    for op in [80u8, 81, 82, 83, 84, 85, 86, 87, 74, 75, 76] {
+        let seconds = matches!(op, 80 | 81 | 84 | 85 | 74);
+        let args: Vec<T> = if op == 76 { vec![nil()] } else { vec![int(5), nil(), at(&[0x80]), at(&[0xff, 0xff]),
+            if seconds { at(&[1, 0, 0, 0, 0, 0, 0, 0, 0]) } else { at(&[1, 0, 0, 0, 0]) }, int(0xffff_ffff)] };
+        for arg in &args { for shape in 0..3 { for kind in 0..3 { for flags in [F_DONT_VALIDATE, F_DONT_VALIDATE | F_COST | F_STRICT] {
+            // kind 0: ephemeral; 1: parent spent but creates a different amount; 2: ordinary coin
+            let mut child = SpendG { parent: if kind < 2 { parent0.coin_id() } else { p.ids[2] }, ph: p.ids[3], amount: 4, conds: vec![], term: nil() };
+            let c = if op == 76 { pair(at(&[76]), nil()) } else { pair(at(&[op]), list(vec![arg.clone()], nil())) };
+            let real = pair(at(&[82]), list(vec![int(3)], nil()));
+            child.conds = match shape { 0 => vec![c], 1 => vec![c, real], _ => vec![real, c] };
+            let mut par = parent0.clone();
+            par.conds.push(pair(at(&[51]), list(vec![at(&child.ph), int(if kind == 1 { 5 } else { child.amount })], nil())));
+            let t = pair(list(vec![
+                list(vec![at(&par.parent), at(&par.ph), int(par.amount), list(par.conds.clone(), nil())], nil()),
+                list(vec![at(&child.parent), at(&child.ph), int(child.amount), list(child.conds.clone(), nil())], nil())], nil()), nil());
+            case(o, flags & F_STRICT != 0, flags, 11_000_000_000, 0, &t);
+        }}}}
+    }
+}
+
 pub fn run(o: &mut Out, seed: u64, thorough: bool, replay: Option<Vec<String>>) {
     if let Some(lines) = replay { for l in lines { replay_line(o, &l); } return; }
     let p = pools();
@@ -446,6 +472,7 @@ pub fn run(o: &mut Out, seed: u64, thorough: bool, replay: Option<Vec<String>>) 
         for l in c.lines().filter(|l| l.starts_with("C01 ")) { replay_line(o, l); }
     }
     sweep(o, &p, thorough);
+    ephemeral_sweep(o, &p);
     let mut r = Rng::new(seed);
     let n = if thorough { 400_000 } else { 30_000 };
     for _ in 0..n {
